@@ -47,7 +47,7 @@ type helper struct {
 // on behalf of a helper and therefore has to close it; a Serve loop left
 // waiting for a response to be closed is keyed by it.
 var owner = map[string]string{
-	"disco.FetchItems": "iterIQ", "disco.WalkItem": "iterIQ", "commands.Fetch": "iterIQ", "roster.Fetch": "iterIQ", "blocklist.Fetch": "iterIQ",
+	"disco.FetchItems": "iterIQ", "disco.WalkItem": "iterIQ", "commands.Fetch": "iterIQ", "roster.Fetch": "iterIQ", "roster.FetchIQ(ver)": "iterIQ", "blocklist.Fetch": "iterIQ",
 	"Session.IterIQ": "iterIQ", "Session.IterIQElement": "iterIQ",
 	"pubsub.Fetch": "pubsub.FetchIQ", "bookmarks.Fetch": "pubsub.FetchIQ",
 	"commands.Execute": "commands.ExecuteIQ", "commands.ForEach": "commands.ExecuteIQ",
@@ -225,6 +225,29 @@ var helpers = []helper{
 		return result(el("query", nsRoster, "ver", "ver11").add(
 			el("item", "", "jid", "romeo@example.net", "name", "Romeo", "subscription", "both").add(el("group", "").text("Friends")),
 			el("item", "", "jid", "mercutio@example.com", "name", "Mercutio", "subscription", "from"),
+		))
+	}},
+	// the versioned request: the canonical answer is a result without payload
+	// ("not modified", RFC 6121 2.6.3), or the whole roster
+	{name: "roster.FetchIQ(ver)", call: func(ctx context.Context, e *env) (bool, error) {
+		var q roster.IQ
+		q.Query.Ver = "ver10"
+		it := roster.FetchIQ(ctx, q, e.s)
+		for n := 0; e.more(n) && it.Next(); n++ {
+			_ = it.Item()
+		}
+		_ = it.Version()
+		err := it.Err()
+		if cerr := it.Close(); err == nil {
+			err = cerr
+		}
+		return err == nil, err
+	}, reply: func(r *rand.Rand, req *xmltree.Node, n int) []*node {
+		if r.Intn(2) == 0 {
+			return result()
+		}
+		return result(el("query", nsRoster, "ver", "ver11").add(
+			el("item", "", "jid", "romeo@example.net", "name", "Romeo", "subscription", "both").add(el("group", "").text("Friends")),
 		))
 	}},
 	{name: "roster.Set", call: func(ctx context.Context, e *env) (bool, error) {
